@@ -145,6 +145,13 @@ def check_evaluate(ctx: Ctx):
     check_single_instance(ctx)
 
 
+class _MaskUnion:
+    """voxelwise or of masks"""
+
+    def __init__(self, parts):
+        self.parts = list(parts)
+
+
 class _MaskTest:
     """Truth value 'the selected mask has (no) set voxel'."""
 
@@ -163,6 +170,16 @@ def check_single_instance(ctx: Ctx):
     holder = []
 
     class InstInterp(ArrInterp):
+        def get_attr(self, base, attr, node):
+            if isinstance(base, (AMask, AArr)) and attr == "shape":
+                return Sym("SHAPE")
+            return super().get_attr(base, attr, node)
+
+        def binop_hook(self, op, l, r, node):
+            if isinstance(op, ast.BitOr) and all(isinstance(a, (AMask, _MaskUnion)) for a in (l, r)):
+                return self.external_call("numpy.logical_or", [l, r], {}, node)
+            return super().binop_hook(op, l, r, node)
+
         def subscript_hook(self, base, idx, node):
             if isinstance(base, AMask) and idx == Sym("CROP"):
                 m = AMask(base.of, base.kind, base.detail)
@@ -190,6 +207,15 @@ def check_single_instance(ctx: Ctx):
 
             if self.prog.is_anchor(name, "_functionals:_get_paired_crop"):
                 self.root.crop_args = list(args) + list(kwargs.values())
+                return Sym("CROP")
+            if name in ("numpy.logical_or",) and len(args) == 2 and not kwargs and all(isinstance(a, (AMask, _MaskUnion)) for a in args):
+                parts = []
+                for a in args:
+                    parts += a.parts if isinstance(a, _MaskUnion) else [a]
+                return _MaskUnion(parts)
+            if self.prog.is_anchor(name, "utils.numpy_utils:_get_bbox_nd") and args and isinstance(args[0], _MaskUnion):
+                # the bounding box of the union of the masks is the paired crop
+                self.root.crop_args = list(args[0].parts)
                 return Sym("CROP")
             if name in ("numpy.sum", "numpy.count_nonzero") and len(args) == 1 and not kwargs and isinstance(args[0], AMask):
                 r = Reduction("count", args[0].of)
@@ -235,7 +261,7 @@ def check_single_instance(ctx: Ctx):
             elif "metric" in n:
                 args[p.name] = metrics[:2]
         it = InstInterp(prog, f, args, metrics=metrics, prefix=prefix)
-        it.root.no_inline = {prog.func("_functionals:_get_paired_crop").qual}
+        it.root.no_inline = {prog.func("_functionals:_get_paired_crop").qual, prog.func("utils.numpy_utils:_get_bbox_nd").qual}
         holder.append(it)
         return it
 
